@@ -14,7 +14,7 @@ import (
 func TestC14Race(t *testing.T) {
 	rapid.Check(t, func(t *rapid.T) {
 		cfg := cGenCfg{RootPlus: true, DataOps: true, NameOps: rapid.IntRange(0, 3).Draw(t, "nameops") > 0, DirRename: true, BigTrunc: rapid.Bool().Draw(t, "bigtrunc"),
-			Focus: rapid.Bool().Draw(t, "focus"), FocusDir: rapid.IntRange(0, 2).Draw(t, "focusdir")}
+			Focus: rapid.Bool().Draw(t, "focus"), FocusDir: rapid.IntRange(0, 2).Draw(t, "focusdir"), HandleOps: rapid.Bool().Draw(t, "handleops")}
 		cc := genConcCase(t, cfg, 20)
 		d := NewDisk(9000)
 		d.SetRecord(false)
